@@ -109,17 +109,40 @@ def handleGraph (args : List String) : Verdict :=
       ((specDist nbrs n s).map fun (o : Option Nat) => match o with | some d => (d : Int) | none => (-1 : Int)) == ds
     if r7.head? != some "|" then none else
     let redexp ← r7.tail.head?
-    let r8 := r7.tail.tail
+    let r8a := r7.tail.tail
+    if r8a.head? != some "|" || r8a.tail.head? != some "S" then none else
+    -- structure id: labels as the real GraphNode prints them, the id of the graph and of its renumbered copy
+    let hl : List (Option String) := (r8a.tail.tail.take n).map fun h => (unhex h).map String.ofList
+    if hl.any Option.isNone || hl.length != n then none else
+    let labs : List String := hl.map fun (o : Option String) => o.getD ""
+    let r8b := r8a.tail.tail.drop n
+    let idA ← (r8b.head? >>= unhex).map String.ofList
+    let idB ← (r8b.tail.head? >>= unhex).map String.ofList
+    let idModel := structIdStr adj (List.range n) (fun v => labs.getD v "") fuel
+    -- independent statement of the same id: layered distances of the spec, insertion sort, maximum
+    let idSpec := ((List.range n).filter fun s => (nbrs s).length == ((List.range n).map fun v => (nbrs v).length).foldl max 0).foldl
+      (fun best s =>
+        let ds := specDist nbrs n s
+        let keys := (List.range n).map fun v => nodeKey (labs.getD v "") (ds.getD v none)
+        let srt := keys.foldr (fun x acc => let rec ins : List String → List String
+                                              | [] => [x]
+                                              | y :: ys => if x ≤ y then x :: y :: ys else y :: ins ys
+                                            ins acc) []
+        let id := String.join srt
+        if best < id then id else best) ""
+    let sidModelOk := idA == idModel
+    let sidOk := idA == idSpec && idB == idA
+    let r8 := r8b.tail.tail
     if r8.head? != some "|" then none else
     let ideq ← r8.tail.head?
-    let ok := partsOk && snOk && distSpecOk && redexp == "11" && (ideq == "10" || ideq == "-")
+    let ok := partsOk && snOk && distSpecOk && redexp == "11" && (ideq == "10" || ideq == "-") && sidOk
     let cyc := m + (components nbrs n (fuel + n)).length - n
     -- the hypotheses of components_partition / bfs_terminates, decided on the observed adjacency lists
     let hypOk := ((List.range n).all fun v => (adj v).all fun x => decide (x < n) && (adj x).contains v) &&
       decide (((List.range n).map fun v => (adj v).length).sum ≤ fuel)
     if !hypOk then some ({ agree := false, propOk := true, msg := "observed adjacency lists are not closed/symmetric or exceed the fuel bound: the theorems' hypotheses are not met", tag := "graph:hyp-fail" } : Verdict) else
-    pure ({ agree := distModelOk && partsOk, propOk := ok,
-            msg := if ok then "model labelling differs" else s!"components={partsOk} singleNetwork={snOk} distances={distSpecOk} reduceExpand={redexp} structureEquivalence={ideq} (want 10)",
+    pure ({ agree := distModelOk && partsOk && sidModelOk, propOk := ok,
+            msg := if ok then "model labelling differs" else s!"components={partsOk} singleNetwork={snOk} distances={distSpecOk} reduceExpand={redexp} structureEquivalence={ideq} (want 10) structureId={sidOk} (the id is the largest sorted concatenation over the max-degree starts, and the renumbered copy has the same id)",
             tag := s!"graph:n{min n 13}:{if connected then "connected" else "disconnected"}:{if cyc == 0 then "forest" else if cyc == 1 then "one-ring" else "fused-rings"}" } : Verdict)).getD (bad "graph fields")
 
 def handle (args : List String) : Verdict :=
